@@ -209,3 +209,40 @@ def early_drop_guards(program: Program):
             out.append((f, st, guards, later, read))
     program.__dict__["_early_drop_guards"] = out
     return out
+
+
+def inherit_history_dependence(program, run, pid: str, func_pattern: str, consequence: str, floor: int = 1) -> int:
+    """Shared by the properties whose statement is about one rendering of one object: their mechanism must not keep
+    state between renderings (a memo on the term, on the class, on the parameterizer) -- otherwise what is printed depends
+    on what was rendered before, and an object used in two statements (or twice in one) violates the property although a
+    fresh object does not.  The facts are C02's (render purity, memoising decorators) and C01's (writes to the receiver
+    outside a builder); here they are re-read for the functions of this property's mechanism (`func_pattern`, a regular
+    expression over `Class.method`) and reported under this property's name with its own consequence.  Returns the number
+    of C02/C01 obligations that concern those functions (an anchor floor for the caller)."""
+    import re
+    from .report import Run
+    from .props import c01, c02
+    rx = re.compile(func_pattern)
+    memo = program.__dict__.setdefault("_history_sub", {})
+    n = 0
+    for mod, prefix_ok in ((c02, ("C02/render-write:", "C02/memo-on-copied-object:", "C02/nondeterministic:", "C02/one-shot-iterator-in-state:")),
+                           (c01, ("C01/receiver-write-outside-builder:",))):
+        sub = memo.get(mod.__name__)
+        if sub is None:
+            sub = Run(mod.__name__.rsplit(".", 1)[-1].upper(), run.tier)
+            mod.check(program, sub)
+            memo[mod.__name__] = sub
+        for o in sub.obligations:
+            if rx.search(o.subject or ""):
+                n += 1
+        for fd in sub.findings:
+            if fd.info or not fd.key.startswith(prefix_ok):
+                continue
+            rest = fd.key.split(":", 1)[1]
+            if not rx.search(rest):
+                continue
+            run.finding(f"{pid}/history-dependent:{rest}",
+                        f"{consequence}: {fd.what}", where=fd.where, rule="history (inherited from C02/R1,R4,R6 and C01)")
+    run.ob(f"{pid} the mechanism keeps no state between renderings (inherited from C02 / C01)", func_pattern, True,
+           detail=f"{n} purity obligations of C02/C01 concern these functions", nontrivial=False)
+    return n
